@@ -30,19 +30,21 @@ theorem Found.seg {g : Graph} {st : List Status} {a b : Nat} (h : Found g st a b
   have hsub : ∀ x ∈ l1 ++ [b], x ∈ a :: stack' := by
     intro x hx
     rw [heq]
-    simp only [List.mem_append, List.mem_singleton, List.mem_cons] at hx ⊢
+    simp only [List.mem_append, List.mem_cons] at hx ⊢
     rcases hx with hx | hx
     · exact Or.inl hx
-    · exact Or.inr (Or.inl hx)
+    · rcases hx with hx | hx
+      · exact Or.inr (Or.inl hx)
+      · cases hx
   refine ⟨(l1 ++ [b]).reverse, ?_, ?_, ?_, ?_, ?_, hl⟩
   · simp
   · rw [List.getLast?_reverse]
     cases l1 with
     | nil => simp at heq ⊢; exact heq.1.symm
     | cons c l1 => simp at heq ⊢; exact heq.1.symm
-  · rw [List.nodup_reverse]
+  · rw [(List.reverse_perm _).nodup_iff]
     have : (l1 ++ [b]).Sublist (l1 ++ b :: l2) :=
-      List.Sublist.append_left (List.Sublist.cons₂ _ (List.nil_sublist _)) _
+      List.Sublist.append_left (List.Sublist.cons_cons _ (List.nil_sublist _)) _
     exact this.nodup hnd
   · intro x hx
     rw [List.mem_reverse] at hx
@@ -76,7 +78,7 @@ theorem Edges.filter_of_not_mem {e : Edges} {k : Nat} (h : k ∉ e.keys) : e.fil
   simpa using this
 
 theorem Edges.put_of_not_mem {e : Edges} {k v : Nat} (h : k ∉ e.keys) : e.put k v = (k, v) :: e := by
-  simp [Edges.put, Edges.filter_of_not_mem h]
+  rw [Edges.put, Edges.filter_of_not_mem h]
 
 theorem Edges.get?_isSome {e : Edges} {k : Nat} : (e.get? k).isSome = true ↔ k ∈ e.keys := by
   simp only [Edges.get?, Option.isSome_map, List.find?_isSome, Edges.keys, List.mem_map]
@@ -197,11 +199,11 @@ theorem collectList_chain (g : Graph) (st : List Status) (a : Nat) :
             · exact hyk h
         · intro x hx
           have hx' : x ∈ (cur :: y :: z :: r).dropLast := by
-            simp only [List.dropLast_cons₂, List.mem_cons] at hx ⊢
+            simp only [List.dropLast_cons_cons, List.mem_cons] at hx ⊢
             exact Or.inr hx
           have hxne : x ≠ cur := by
             rintro rfl
-            have := List.mem_of_mem_dropLast hx
+            have := List.dropLast_subset _ hx
             exact (List.nodup_cons.1 hnd).1 this
           simp only [Edges.keys, List.map_cons, List.mem_cons, not_or]
           exact ⟨hxne, hkeys x hx'⟩
